@@ -97,7 +97,10 @@ class SubtractPathFlux(Contract):
                 ('path-edges-reduced-by-the-bottleneck', L.forall(0, m - 1, lambda k: L.req(R[p[k], p[k + 1]], edge(k) - bott))),
                 ('nothing-negative-appears-on-the-path', L.forall(0, m - 1, lambda k: R[p[k], p[k + 1]] >= 0)),
                 ('a-bottleneck-edge-is-exactly-zero', L.exists(0, m - 1, lambda b: L.And(L.req(edge(b), bott), R[p[b], p[b + 1]] == 0))),
-                ('other-entries-unchanged', L.forall2((0, n), (0, n), lambda i, j: L.implies(L.Not(on_path(L, p, i, j)), R[i, j] == Fm[i, j])))]
+                ('other-entries-unchanged', L.forall2((0, n), (0, n), lambda i, j: L.implies(L.Not(on_path(L, p, i, j)), R[i, j] == Fm[i, j]))),
+                # a summary the caller's loop invariant can use without looking at the path: for a non-negative bottleneck no entry grows, and an entry is
+                # either unchanged or non-negative
+                ('no-entry-grows-and-changed-entries-stay-non-negative', L.implies(bott >= 0, L.forall2((0, n), (0, n), lambda i, j: L.And(R[i, j] <= Fm[i, j], L.Or(R[i, j] >= 0, R[i, j] == Fm[i, j])))))]
 
     def result(self, e, st, args):
         a = e.deref(st, args['net_flux'])
